@@ -135,7 +135,32 @@ pub struct K {
     epoch: u64,
     canary: u64,
 }
+/// callbacks (Eq / Ord / Hash / Debug / Serialize / Clone) invoked on a key or value whose canary is
+/// gone: the object had been destroyed, or its memory freed (and poisoned), when the map handed it
+/// to the caller's code
+static DEAD_TOUCHES: AtomicU64 = AtomicU64::new(0);
+static DEAD_FIRST: std::sync::Mutex<Option<String>> = std::sync::Mutex::new(None);
+fn dead_touch(what: &str, ident: u64) {
+    if DEAD_TOUCHES.fetch_add(1, Ordering::SeqCst) == 0 {
+        if let Ok(mut g) = DEAD_FIRST.lock() {
+            *g = Some(format!("{} was invoked on an object (recorded identity {:#x}) that had already been destroyed or freed", what, ident));
+        }
+    }
+}
+/// the first such callback since the last call, if any
+pub fn take_dead_touch() -> Option<String> {
+    if DEAD_TOUCHES.swap(0, Ordering::SeqCst) == 0 {
+        return None;
+    }
+    DEAD_FIRST.lock().ok().and_then(|mut g| g.take()).or_else(|| Some("a callback was invoked on a destroyed object".into()))
+}
 impl K {
+    #[inline]
+    fn alive(&self, what: &str) {
+        if self.canary != self.inst ^ KMAGIC {
+            dead_touch(what, self.inst);
+        }
+    }
     pub fn new(tag: u32) -> K {
         let origin = NEXT_ORIGIN.fetch_add(1, Ordering::SeqCst) as u32;
         let (inst, epoch) = ledger_new(true, tag as u64, origin, false);
@@ -158,6 +183,7 @@ impl K {
 }
 impl Clone for K {
     fn clone(&self) -> K {
+        self.alive("Clone for the key type");
         let (inst, epoch) = ledger_new(true, self.tag as u64, self.origin, true);
         crate::sched::emit_user(crate::hb::U_CLONE_K, self.inst, inst);
         K {
@@ -178,6 +204,8 @@ impl Drop for K {
 impl PartialEq for K {
     fn eq(&self, o: &K) -> bool {
         bump();
+        self.alive("Eq for the key type");
+        o.alive("Eq for the key type");
         // a comparison reads both keys: for the happens-before monitor this is where a key
         // stored in the map is actually accessed
         crate::sched::emit_user(crate::hb::U_ACCESS_K, self.inst, 0);
@@ -194,6 +222,8 @@ impl PartialOrd for K {
 impl Ord for K {
     fn cmp(&self, o: &K) -> std::cmp::Ordering {
         bump();
+        self.alive("Ord for the key type");
+        o.alive("Ord for the key type");
         crate::sched::emit_user(crate::hb::U_ACCESS_K, self.inst, 0);
         crate::sched::emit_user(crate::hb::U_ACCESS_K, o.inst, 0);
         self.tag.cmp(&o.tag)
@@ -201,6 +231,7 @@ impl Ord for K {
 }
 impl Hash for K {
     fn hash<H: Hasher>(&self, h: &mut H) {
+        self.alive("Hash for the key type");
         h.write_u32(self.tag)
     }
 }
@@ -208,6 +239,7 @@ impl std::fmt::Debug for K {
     fn fmt(&self, f: &mut std::fmt::Formatter<'_>) -> std::fmt::Result {
         // the formatter's options (hex, width, sign, alternate ...) reach the number, as they do for
         // any derived Debug: a container that forwards a different formatter shows up in the output
+        self.alive("Debug for the key type");
         f.write_str("k")?;
         std::fmt::Debug::fmt(&self.tag, f)
     }
@@ -223,6 +255,12 @@ pub struct V {
     canary: u64,
 }
 impl V {
+    #[inline]
+    fn alive(&self, what: &str) {
+        if self.canary != self.id ^ VMAGIC {
+            dead_touch(what, self.id);
+        }
+    }
     pub fn new(payload: u64) -> V {
         let id = NEXT_VID.fetch_add(1, Ordering::SeqCst);
         let (inst, epoch) = ledger_new(false, id, 0, false);
@@ -242,6 +280,7 @@ impl V {
 impl Clone for V {
     /// only `HashMap::clone` clones values; the copy gets a fresh identity but the same payload
     fn clone(&self) -> V {
+        self.alive("Clone for the value type");
         let id = NEXT_VID.fetch_add(1, Ordering::SeqCst);
         let (inst, epoch) = ledger_new(false, id, 0, true);
         V {
@@ -267,6 +306,7 @@ impl PartialEq for V {
 impl Eq for V {}
 impl std::fmt::Debug for V {
     fn fmt(&self, f: &mut std::fmt::Formatter<'_>) -> std::fmt::Result {
+        self.alive("Debug for the value type");
         f.write_str("v")?;
         std::fmt::Debug::fmt(&self.payload, f)
     }
@@ -383,11 +423,13 @@ impl Hasher for HH {
 
 impl serde::Serialize for K {
     fn serialize<S: serde::Serializer>(&self, s: S) -> Result<S::Ok, S::Error> {
+        self.alive("Serialize for the key type");
         s.serialize_u32(self.tag)
     }
 }
 impl serde::Serialize for V {
     fn serialize<S: serde::Serializer>(&self, s: S) -> Result<S::Ok, S::Error> {
+        self.alive("Serialize for the value type");
         s.serialize_u64(self.payload)
     }
 }
